@@ -4150,12 +4150,12 @@ func smallWave17(c *core.Ctx, b *ob) {
 	// S66 — the output of a MarshalJSON may end in white space (json.NewEncoder(&buf).Encode
 	// appends a newline): encoding/json compacts it away; the test for trailing data after the
 	// value is made on the remainder with its white space skipped.
-	{
+	for _, spec := range [][2]string{{"json.(encoder).encodeJSONMarshaler", "marshaler-output:trailing-space-skipped"}, {"json.(encoder).encodeRawMessage", "raw-message:trailing-space-skipped"}} {
 		props := []string{"C01", "C05"}
-		key := "marshaler-output:trailing-space-skipped"
-		fn := c.Lookup("json.(encoder).encodeJSONMarshaler")
+		key := spec[1]
+		fn := c.Lookup(spec[0])
 		if fn == nil {
-			b.addP(props, core.Undecided, key, "-", "json.(encoder).encodeJSONMarshaler not found")
+			b.addP(props, core.Undecided, key, "-", spec[0]+" not found")
 		} else {
 			n, bad := 0, ""
 			for _, blk := range fn.Blocks {
@@ -4194,7 +4194,7 @@ func smallWave17(c *core.Ctx, b *ob) {
 			}
 			switch {
 			case bad != "":
-				b.addP(props, core.Violation, key, bad, "encodeJSONMarshaler tests the remainder after the marshaler's value for trailing data without skipping white space: a MarshalJSON whose output ends in a newline (written with an Encoder) fails with a MarshalerError where encoding/json compacts it and succeeds")
+				b.addP(props, core.Violation, key, bad, spec[0]+" tests the remainder after the value for trailing data without skipping white space: a MarshalJSON output or a RawMessage that ends in a newline (written with an Encoder) fails where encoding/json compacts it and succeeds")
 			case n == 0:
 				b.addP(props, core.Undecided, key, c.FuncPos(fn), "no test of the remainder after the marshaler's value found")
 			default:
@@ -9043,6 +9043,82 @@ func smallWave30(c *core.Ctx, b *ob) {
 			b.addP(props, core.Violation, key, bad, "a thrift function reads a value with io.ReadAll at "+bad+": the end of the input is not an error for ReadAll, so a string cut short is returned as a shorter string with a nil error where truncated input must be reported as unexpected EOF")
 		} else {
 			b.addP(props, core.Discharged, key, "-", "no function of package thrift calls io.ReadAll")
+		}
+	}
+	// (s) a map key type whose pointer implements TextUnmarshaler is decoded by UnmarshalText
+	// whatever its kind (encoding/json: "if the key type implements encoding.TextUnmarshaler …" —
+	// only the *encoding* side makes an exception for string kinds)
+	{
+		props := []string{"C02"}
+		key := "map-key-decoder:text-unmarshaler-whatever-the-kind"
+		fn := c.Lookup("json.constructMapCodec")
+		if fn == nil {
+			b.addP(props, core.Undecided, key, "-", "json.constructMapCodec not found")
+		} else {
+			n, bad := 0, ""
+			for _, ci := range callsIn(fn) {
+				g := staticCallee(ci.Common())
+				if g == nil || g.Name() != "constructTextUnmarshalerDecodeFunc" {
+					continue
+				}
+				n++
+				for _, e := range dominatingEdges(ci.Block()) {
+					if dependsOn(e.ifi.Cond, func(x ssa.Value) bool {
+						call, ok := x.(*ssa.Call)
+						return ok && call.Common().IsInvoke() && call.Common().Method.Name() == "Kind"
+					}) {
+						bad = c.InstrPos(ci)
+					}
+				}
+			}
+			switch {
+			case n == 0:
+				b.addP(props, core.Undecided, key, c.FuncPos(fn), "constructMapCodec installs no TextUnmarshaler key decoder")
+			case bad != "":
+				b.addP(props, core.Violation, key, bad, "the TextUnmarshaler key decoder is installed only under a test of the key's kind: a named string-kind key type with UnmarshalText is decoded as a plain string, so {\"A\":1} lands under \"A\" where encoding/json calls UnmarshalText (\"a\"), and keys that UnmarshalText rejects are accepted")
+			default:
+				b.addP(props, core.Discharged, key, c.FuncPos(fn), "installed under Implements(TextUnmarshaler) alone")
+			}
+		}
+	}
+	// (t) Time.MarshalJSON fails for years outside [0,9999] — negative years included: encodeTime
+	// looks at the text it formatted (the byte after four year digits must be '-'), not at a
+	// one-sided comparison of t.Year()
+	{
+		props := []string{"C01"}
+		key := "time:year-width-checked-on-the-text"
+		fn := c.Lookup("json.(encoder).encodeTime")
+		if fn == nil {
+			b.addP(props, core.Undecided, key, "-", "json.(encoder).encodeTime not found")
+		} else {
+			ok := false
+			for _, blk := range fn.Blocks {
+				for _, in := range blk.Instrs {
+					bo, isBO := in.(*ssa.BinOp)
+					if !isBO || (bo.Op != token.NEQ && bo.Op != token.EQL) {
+						continue
+					}
+					if k, isK := constInt(bo.Y); !isK || k != '-' {
+						continue
+					}
+					ld, isLd := bo.X.(*ssa.UnOp)
+					if !isLd || ld.Op != token.MUL {
+						continue
+					}
+					ia, isIA := ld.X.(*ssa.IndexAddr)
+					if !isIA {
+						continue
+					}
+					if st := flattenSum(ia.Index); st.k == 5 && len(st.terms) == 1 {
+						ok = true
+					}
+				}
+			}
+			if ok {
+				b.addP(props, core.Discharged, key, c.FuncPos(fn), "the byte after the four year digits is compared with '-'")
+			} else {
+				b.addP(props, core.Violation, key, c.FuncPos(fn), "encodeTime no longer checks that the formatted year is exactly four digits wide (the byte at start+5 is '-'): a one-sided test such as t.Year() > 9999 lets negative years through — time.Date(-44, …) is written as \"-0044-…\" where encoding/json returns \"year outside of range [0,9999]\"")
+			}
 		}
 	}
 	// (a) zig-zag decoding shifts the unsigned word: (v >> 1) ^ -(v & 1) with a logical shift. On a
